@@ -1,6 +1,6 @@
 (* Properties_C03.v — C03: after screen.draw(canvas) the terminal displays
    exactly that canvas. *)
-From TP Require Import Base Elem Term Screen VT Oracle P_Sync P_Step P_Bytes P_Run P_Canvas P_Screen Tie_Output Tie_Charset.
+From TP Require Import Base Elem Term Screen VT Oracle P_Sync P_Step P_Bytes P_Run P_Canvas P_Screen P_OracleSound Tie_Output Tie_Charset.
 From Coq Require Import Lia.
 Local Open Scope N_scope.
 
@@ -87,6 +87,22 @@ Proof.
   rewrite L in F. exact F.
 Qed.
 Print Assumptions C03_first_draw.
+
+(* no false alarm from the extracted oracle on draws: on the observation the
+   model produces for a draw (terminal of the canvas's size, terminal not
+   wrapping immediately) the oracle's clauses 101, 801, 301, 401 report nothing
+   and its own invariant (belief true of the terminal, display = frame) is
+   re-established *)
+Theorem C03_oracle_silent_on_model_draw :
+  forall cfg beh adopt, (b_unicode_all beh = true -> unicode_all cfg = true) ->
+  forall s c,
+    Sync beh (os_model s) (os_vt s) -> Frame (os_frame s) (os_vt s) ->
+    ts_size (os_model s) = (cw c, ch c) -> canvas_elems_wf c -> wrap cfg <> Immediate ->
+    let s' := oracle_step cfg beh adopt true s (draw_obs beh (os_frame s) (os_model s) c) in
+    os_fail s' = os_fail s /\ Sync beh (os_model s') (os_vt s') /\ Frame (os_frame s') (os_vt s') /\
+    os_frame s' = c /\ ts_size (os_model s') = ts_size (os_model s).
+Proof. exact oracle_draw_sound. Qed.
+Print Assumptions C03_oracle_silent_on_model_draw.
 
 (* known finding D7: on a terminal that wraps immediately the statement is false -
    a 1x2 canvas with a non-blank cell at (0,1) *)
